@@ -1,1 +1,196 @@
-(* C11 proofs: in progress *)
+(* Proofs for Props/C11.v: the bytecode verifier of Model/Verifier.v against the VM and the compiler of Model/VM.v.
+
+   Part 1: opcode table, wide operands, forward jumps.
+   Part 2: soundness of the verifier ([verified_safe]).
+   Part 3: the compiler's output verifies ([compile_verifies]). *)
+From Coq Require Import List String Ascii Bool Arith NArith ZArith Lia.
+From Yae Require Import Base.Sexp Model.Ty Gen.Generated Model.Unify Model.Num Model.Lexer Model.Literal Model.Cst
+  Model.Check Model.CheckSpec Model.Val Model.Render Model.Builtins Model.Eval Model.EvalSpec Model.VM Model.Verifier.
+Import ListNotations.
+Local Open Scope nat_scope.
+
+(* ------------------------------------------------------------------------------------------------ *)
+(* Part 1                                                                                            *)
+(* ------------------------------------------------------------------------------------------------ *)
+
+Lemma opcode_table :
+  forallb (fun o => match decode_op (op_byte o) with Some o' => String.eqb (op_name o) (op_name o') | None => false end) all_ops = true
+  /\ List.length opcode_names = List.length all_ops.
+Proof. split; vm_compute; reflexivity. Qed.
+
+Lemma emit16_roundtrip : forall n st st', emit16 n st = COk st' ->
+  exists hi lo, cs_rcode st' = lo :: hi :: cs_rcode st /\ (hi * 256 + lo = n)%N /\ (hi < 256)%N /\ (lo < 256)%N.
+Proof.
+  intros n st st' H. unfold emit16 in H.
+  destruct (N.leb n 65535) eqn:Hle; [|discriminate].
+  apply N.leb_le in Hle. inversion H; subst; clear H.
+  exists (n / 256)%N, (n mod 256)%N. cbn [emit_byte cs_rcode].
+  split; [reflexivity|]. split.
+  - rewrite N.mul_comm. symmetry. apply N.div_mod. discriminate.
+  - split.
+    + apply N.div_lt_upper_bound; [discriminate|]. change (256 * 256)%N with 65536%N. lia.
+    + apply N.mod_lt. discriminate.
+Qed.
+
+(* ---- decoding ---- *)
+Fixpoint decode_go (ops : list operand) (r : list N) (acc : decoded) : option decoded :=
+  match ops with
+  | [] => Some acc
+  | Ob :: more =>
+      match r with
+      | x :: r' => decode_go more r' (mkDec (d_op acc) (d_const acc) (d_med acc) (d_jump acc) (Some x) (S (d_size acc)))
+      | [] => None
+      end
+  | k :: more =>
+      match r with
+      | hi :: lo :: r' =>
+          let v := (hi * 256 + lo)%N in
+          let acc' := match k with
+                      | Oc => mkDec (d_op acc) (Some v) (d_med acc) (d_jump acc) (d_b acc) (S (S (d_size acc)))
+                      | Om => mkDec (d_op acc) (d_const acc) (Some v) (d_jump acc) (d_b acc) (S (S (d_size acc)))
+                      | _ => mkDec (d_op acc) (d_const acc) (d_med acc) (Some v) (d_b acc) (S (S (d_size acc)))
+                      end in
+          decode_go more r' acc'
+      | _ => None
+      end
+  end.
+
+Lemma decode_cons b r :
+  decode (b :: r) = match decode_op b with
+                    | None => None
+                    | Some o => decode_go (operands o) r (mkDec o None None None None 1)
+                    end.
+Proof. reflexivity. Qed.
+
+(* the shape of a decoded instruction, by operand layout *)
+Inductive dshape (o : opcode) (r : list N) (dec : decoded) : Prop :=
+| DS0 : operands o = [] -> dec = mkDec o None None None None 1 -> dshape o r dec
+| DSc hi lo r' : operands o = [Oc] -> r = hi :: lo :: r' -> dec = mkDec o (Some (hi * 256 + lo)%N) None None None 3 -> dshape o r dec
+| DSj hi lo r' : operands o = [Oj] -> r = hi :: lo :: r' -> dec = mkDec o None None (Some (hi * 256 + lo)%N) None 3 -> dshape o r dec
+| DSb x r' : operands o = [Ob] -> r = x :: r' -> dec = mkDec o None None None (Some x) 2 -> dshape o r dec
+| DSmc hi lo hi2 lo2 r' : operands o = [Om; Oc] -> r = hi :: lo :: hi2 :: lo2 :: r' ->
+    dec = mkDec o (Some (hi2 * 256 + lo2)%N) (Some (hi * 256 + lo)%N) None None 5 -> dshape o r dec
+| DScm hi lo hi2 lo2 r' : operands o = [Oc; Om] -> r = hi :: lo :: hi2 :: lo2 :: r' ->
+    dec = mkDec o (Some (hi * 256 + lo)%N) (Some (hi2 * 256 + lo2)%N) None None 5 -> dshape o r dec
+| DScb hi lo x r' : operands o = [Oc; Ob] -> r = hi :: lo :: x :: r' ->
+    dec = mkDec o (Some (hi * 256 + lo)%N) None None (Some x) 4 -> dshape o r dec.
+
+Lemma decode_shape b r o dec : decode_op b = Some o -> decode (b :: r) = Some dec -> dshape o r dec.
+Proof.
+  intros Ho H. rewrite decode_cons, Ho in H.
+  destruct (operands o) as [|k1 [|k2 [|k3 l]]] eqn:Hops.
+  - cbn in H. inversion H. apply DS0; auto.
+  - destruct k1; cbn in H.
+    + destruct r as [|hi [|lo r']]; try discriminate. inversion H. eapply DSc; eauto.
+    + destruct o; discriminate.
+    + destruct r as [|hi [|lo r']]; try discriminate. inversion H. eapply DSj; eauto.
+    + destruct r as [|x r']; try discriminate. inversion H. eapply DSb; eauto.
+  - destruct o; try discriminate; inversion Hops; subst; cbn in H;
+      destruct r as [|a1 [|a2 [|a3 r']]]; try discriminate.
+    + destruct r' as [|a4 r']; try discriminate. inversion H. eapply DScm; eauto.
+    + destruct r' as [|a4 r']; try discriminate. inversion H. eapply DScm; eauto.
+    + destruct r' as [|a4 r']; try discriminate. inversion H. eapply DSmc; eauto.
+    + inversion H. eapply DScb; eauto.
+    + inversion H. eapply DScb; eauto.
+  - destruct o; discriminate.
+Qed.
+
+Lemma decode_op_of b r dec : decode (b :: r) = Some dec -> decode_op b = Some (d_op dec).
+Proof.
+  intros H. destruct (decode_op b) as [o|] eqn:Ho.
+  - destruct (decode_shape _ _ _ _ Ho H); subst; reflexivity.
+  - rewrite decode_cons, Ho in H. discriminate.
+Qed.
+
+Lemma decode_jump_op rest dec t : decode rest = Some dec -> d_jump dec = Some t -> d_op dec = OP_IF_TRUE \/ d_op dec = OP_JUMP.
+Proof.
+  intros H Hj. destruct rest as [|b r]; [discriminate|].
+  pose proof (decode_op_of _ _ _ H) as Ho.
+  destruct (decode_shape _ _ _ _ Ho H) as [? Hd|? ? ? Hops ? Hd|? ? ? Hops ? Hd|? ? ? ? Hd|? ? ? ? ? ? ? Hd|? ? ? ? ? ? ? Hd|? ? ? ? ? ? Hd];
+    try (rewrite Hd in Hj; discriminate).
+  destruct (d_op dec); try discriminate; auto.
+Qed.
+
+(* ---- one step of the verifier ---- *)
+Definition here (d : option nat) (pend : list (nat * nat)) (pc : nat) : option nat :=
+  match d, pend_get pc pend with
+  | Some a, Some b => if Nat.eqb a b then Some a else None
+  | Some a, None => Some a
+  | None, Some b => Some b
+  | None, None => None
+  end.
+Definition agree (pend : list (nat * nat)) (pc : nat) (h : option nat) : bool :=
+  forallb (fun x => if Nat.eqb (fst x) pc then match h with Some h => Nat.eqb (snd x) h | None => false end else true) pend.
+
+Definition vnext (f : nat) (pool : list const) (codelen pc : nat) (rest : list N) (pend : list (nat * nat))
+                 (depth : nat) (dec : decoded) (pops pushes : nat) : bool :=
+  let nd := (depth - pops + pushes)%nat in
+  let pend1 := pend_del pc pend in
+  let next_pc := (pc + d_size dec)%nat in
+  let next_rest := skipn (d_size dec) rest in
+  match d_op dec with
+  | OP_RETURN => Nat.eqb depth 1 && vloop f pool codelen next_pc next_rest None pend1 true
+  | OP_JUMP =>
+      match d_jump dec with
+      | Some t => Nat.ltb pc (N.to_nat t) && Nat.ltb (N.to_nat t) codelen &&
+                  vloop f pool codelen next_pc next_rest None ((N.to_nat t, nd) :: pend1) false
+      | None => false
+      end
+  | OP_IF_TRUE =>
+      match d_jump dec with
+      | Some t => Nat.ltb pc (N.to_nat t) && Nat.ltb (N.to_nat t) codelen &&
+                  vloop f pool codelen next_pc next_rest (Some nd) ((N.to_nat t, nd) :: pend1) false
+      | None => false
+      end
+  | _ => vloop f pool codelen next_pc next_rest (Some nd) pend1 false
+  end.
+
+Lemma vloop_S f pool L pc b r d pend lr :
+  vloop (S f) pool L pc (b :: r) d pend lr =
+  match here d pend pc, decode (b :: r) with
+  | Some depth, Some dec =>
+      match effect pool dec with
+      | None => false
+      | Some (pops, pushes) =>
+          agree pend pc (here d pend pc) && Nat.leb pops depth && vnext f pool L pc (b :: r) pend depth dec pops pushes
+      end
+  | _, _ => false
+  end.
+Proof. reflexivity. Qed.
+
+Lemma vloop_nil f pool L pc d pend lr :
+  vloop (S f) pool L pc [] d pend lr = lr && match pend with [] => true | _ => false end.
+Proof. reflexivity. Qed.
+
+Lemma vloop_inv f pool L pc rest d pend lr :
+  vloop f pool L pc rest d pend lr = true -> rest <> [] ->
+  exists f' depth dec pops pushes,
+    f = S f' /\ here d pend pc = Some depth /\ decode rest = Some dec /\ effect pool dec = Some (pops, pushes) /\
+    agree pend pc (Some depth) = true /\ pops <= depth /\
+    vnext f' pool L pc rest pend depth dec pops pushes = true.
+Proof.
+  intros H Hne. destruct f as [|f']; [discriminate|].
+  destruct rest as [|b r]; [congruence|].
+  rewrite vloop_S in H.
+  destruct (here d pend pc) as [depth|] eqn:Hh; [|discriminate].
+  destruct (decode (b :: r)) as [dec|] eqn:Hd; [|discriminate].
+  destruct (effect pool dec) as [[pops pushes]|] eqn:He; [|discriminate].
+  apply andb_prop in H as [H H3]. apply andb_prop in H as [H1 H2].
+  exists f', depth, dec, pops, pushes. repeat split; auto. apply Nat.leb_le; auto.
+Qed.
+
+Lemma jumps_forward : forall pool code pc rest dec tgt,
+  verify pool code = true ->
+  rest = skipn pc code -> decode rest = Some dec -> d_jump dec = Some tgt ->
+  (exists f d pend lr, vloop f pool (len code) pc rest d pend lr = true) ->
+  (pc < N.to_nat tgt)%nat /\ (N.to_nat tgt < len code)%nat.
+Proof.
+  intros pool code pc rest dec tgt _ _ Hdec Hj (f & d & pend & lr & Hv).
+  assert (Hne : rest <> []) by (intro; subst; discriminate).
+  destruct (vloop_inv _ _ _ _ _ _ _ _ Hv Hne) as (f' & depth & dec' & pops & pushes & _ & _ & Hdec' & _ & _ & _ & Hn).
+  rewrite Hdec in Hdec'. inversion Hdec'; subst dec'. clear Hdec'.
+  unfold vnext in Hn. rewrite Hj in Hn.
+  destruct (decode_jump_op _ _ _ Hdec Hj) as [Ho|Ho]; rewrite Ho in Hn;
+    apply andb_prop in Hn as [Hn _]; apply andb_prop in Hn as [H1 H2];
+    apply Nat.ltb_lt in H1; apply Nat.ltb_lt in H2; auto.
+Qed.
